@@ -26,7 +26,7 @@ from .common import *  # noqa
 from symx.solver import explore, prove_zero, prove_formula
 from symx import harness as H
 from symx import shim as _shim
-from symx.val import EngineError
+from symx.val import EngineError, SymbolicEscape
 
 MOD = "harness.C19"
 
@@ -43,6 +43,46 @@ class RunnerNumpy(_shim.SymNumpy):
     @property
     def inf(self):
         return SR.var("INF")
+
+    # -- finiteness: the only non-finite value of a run is the symbol INF itself -------------------------------
+    @staticmethod
+    def _is_inf(e):
+        if isinstance(e, SR):
+            if (e - SR.var("INF")).is_zero():
+                return True
+            from symx import poly as _P
+
+            if "INF" in _P.INDEX and _P.INDEX["INF"] in e.v.vars():
+                raise SymbolicEscape("arithmetic on the infinite wall: %r" % (e,))
+            return False
+        return bool(_shim.realnp.isinf(e))
+
+    def isinf(self, x):
+        if isinstance(x, (list, tuple, _shim.realnp.ndarray)):
+            return _shim.realnp.array([self._is_inf(e) for e in x], dtype=bool)
+        return self._is_inf(x)
+
+    def isfinite(self, x):
+        if isinstance(x, (list, tuple, _shim.realnp.ndarray)):
+            return _shim.realnp.array([self.isfinite(e) for e in x], dtype=bool)
+        if isinstance(x, SR):
+            return not self._is_inf(x)
+        return bool(_shim.realnp.isfinite(x))
+
+    def digitize(self, x, bins, right=False):
+        """numpy.digitize, including its refusal of non-monotonic bins (ValueError)."""
+        if not (_shim._is_obj(x) or _shim._is_obj(bins)):
+            return _shim.realnp.digitize(x, bins, right=right)
+        bl = list(bins)
+
+        def holds(c):
+            return c if isinstance(c, bool) else bool(c)
+
+        if not all(holds(_le(a, b)) for a, b in zip(bl, bl[1:])):
+            if all(holds(_le(b, a)) for a, b in zip(bl, bl[1:])):
+                raise SymbolicEscape("numpy.digitize with decreasing symbolic bins is not modelled")
+            raise ValueError("bins must be monotonically increasing or decreasing")
+        return _shim.SymNumpy.digitize(self, x, bl, right=right)
 
 
 def sym_runner_module(name):
@@ -218,6 +258,10 @@ def _ge(a, b):
     return a >= b
 
 
+def _le(a, b):
+    return _ge(b, a)
+
+
 def _gt(a, b):
     if isinstance(a, SR):
         return a > b
@@ -236,7 +280,7 @@ def _scale_ok(spec, shape):
     return True
 
 
-def case_paths(log, shape, rel="<=", free=False, o_spec="generic", t_spec="generic", via_ffns=None, pairs=None):
+def case_paths(log, shape, rel="<=", free=False, o_spec="generic", t_spec="generic", via_ffns=None, pairs=None, pre_query=False):
     m = sym_runner_module("eko.matchings")
     log.encode(m.Atlas.__init__, m.Atlas.normalize, m.Atlas.path, m.Atlas.matched_path, m.Atlas.ffns, m.nf_default,
                m.is_downward_path, m.flavor_shift)
@@ -248,8 +292,8 @@ def case_paths(log, shape, rel="<=", free=False, o_spec="generic", t_spec="gener
         pairs = [(a, b) for a in nfo for b in nfo]
     for nf0, nff in pairs:
         kw = {"shape": list(shape), "nf0": nf0, "nff": nff, "o_spec": o_spec, "t_spec": t_spec, "free": free, "rel": rel,
-              "via_ffns": via_ffns}
-        tag = "[%s|%s->%s|o=%s,t=%s]" % (",".join(shape), nf0, nff, o_spec, t_spec)
+              "via_ffns": via_ffns, "pre_query": pre_query}
+        tag = "[%s|%s->%s|o=%s,t=%s%s]" % (",".join(shape), nf0, nff, o_spec, t_spec, "|after a default-nf lookup" if pre_query else "")
         cnt = {"n": 0}
 
         def run(nf0=nf0, nff=nff, kw=kw, tag=tag):
@@ -280,6 +324,12 @@ def case_paths(log, shape, rel="<=", free=False, o_spec="generic", t_spec="gener
                 dec(z3.BoolVal(o_nf == nf0), "origin keeps the given nf", "Atlas.normalize:origin")
             dec(zeq(atlas.origin[0], mu0), "origin keeps its scale", "Atlas.normalize:origin")
             # -- target ----------------------------------------------------------------
+            if pre_query:
+                # an earlier default-nf lookup on the same atlas (numpy refuses unsorted walls: ValueError) must not change later answers
+                try:
+                    m.nf_default(muf, atlas)
+                except ValueError:
+                    pass
             path = m.Atlas.path(atlas, (muf, nff))
             e_nf = path[-1].nf
             if nff is None:
@@ -337,13 +387,17 @@ def case_paths(log, shape, rel="<=", free=False, o_spec="generic", t_spec="gener
             dec(zand(goals), "segment nf - flavor_shift indexes the quark whose wall ends the segment", "flavor_shift")
             dec(zand(z3.And(z3.Implies(zb(_gt(s.origin, s.target)), zb(s.is_downward)), z3.Implies(zb(_gt(s.target, s.origin)), z3.Not(zb(s.is_downward))))
                      for s in path), "Segment.is_downward <=> origin > target (nothing claimed for a zero-length segment)", "Segment.is_downward")
+            # -- queries leave the atlas as it was built ---------------------------------------------------------
+            built = [0] + W + [SR.var("INF")]
+            dec(zand([zeq(a, b) for a, b in zip(atlas.walls, built)] + [z3.BoolVal(len(atlas.walls) == 5), zeq(atlas.origin[0], mu0), z3.BoolVal(atlas.origin[1] == o_nf)]),
+                "walls and origin of the atlas are unchanged by the queries", "Atlas:unchanged")
             log.twin("domain " + tag)
             log.collect_ctx()
             cnt["n"] += 1
 
         _r, pm = explore(run, max_paths=400)
         log.path_stats(pm)
-        _validate(log, m, shape, nf0, nff, o_spec, t_spec, via_ffns)
+        _validate(log, m, shape, nf0, nff, o_spec, t_spec, via_ffns, free, pre_query)
 
 
 # ---------------------------------------------------------------------------
@@ -381,19 +435,24 @@ def _num(env, x):
     return float(x)
 
 
-def _validate(log, m, shape, nf0, nff, o_spec, t_spec, via_ffns):
+def _validate(log, m, shape, nf0, nff, o_spec, t_spec, via_ffns, free=False, pre_query=False):
     R = real_module("eko.matchings")  # second copy of the module with the real numpy
 
     for _ in range(2):
-        pt = _sampler(log.rng)
+        pt = (_sampler_free if free else _sampler)(log.rng)
         pt["INF"] = BIG
         ctx.reset()
         ctx.path = ConcretePath(pt)
         try:
-            walls = make_walls(shape)
+            walls = make_walls(shape, free=free)
             mu0 = make_scale("mu0", o_spec, walls)
             muf = make_scale("muf", t_spec, walls)
             atlas = m.Atlas.ffns(via_ffns, mu0) if via_ffns is not None else m.Atlas(list(walls), (mu0, nf0))
+            if pre_query:
+                try:
+                    m.nf_default(muf, atlas)
+                except ValueError:
+                    pass
             mp = atlas.matched_path((muf, nff))
             env = S.NumEnv(pt)
             sym = [(_num(env, b.origin), _num(env, b.target), b.nf) if isinstance(b, m.Segment) else (_num(env, b.scale), b.hq, _bool(env, b.inverse))
@@ -402,6 +461,11 @@ def _validate(log, m, shape, nf0, nff, o_spec, t_spec, via_ffns):
             ctx.path = None
         fw, f0, ff = _concrete(shape, pt, o_spec, t_spec)
         ra = R.Atlas.ffns(via_ffns, f0) if via_ffns is not None else R.Atlas(fw, (f0, nf0))
+        if pre_query:
+            try:
+                R.nf_default(ff, ra)
+            except ValueError:
+                pass
         real = [(float(b.origin), float(b.target), b.nf) if isinstance(b, R.Segment) else (float(b.scale), b.hq, bool(b.inverse))
                 for b in ra.matched_path((ff, nff))]
         if sym != real:
@@ -499,7 +563,7 @@ def _close(a, b):
     return abs(a - b) <= 1e-9 * max(abs(a), abs(b))
 
 
-def replay_path(point, shape, nf0, nff, o_spec="generic", t_spec="generic", free=False, rel="<=", via_ffns=None):
+def replay_path(point, shape, nf0, nff, o_spec="generic", t_spec="generic", free=False, rel="<=", via_ffns=None, pre_query=False):
     """REAL eko.matchings on floats against the plain oracle above."""
     import numpy as np
     from eko import matchings as M
@@ -523,6 +587,11 @@ def replay_path(point, shape, nf0, nff, o_spec="generic", t_spec="generic", free
         atlas = M.Atlas(MatchingScales(walls), (mu0, nf0))
     want = oracle_path(walls, (mu0, nf0), (muf, nff))
     bad = []
+    if pre_query:
+        try:
+            M.nf_default(muf, atlas)
+        except ValueError:
+            pass
     if atlas.origin[1] != want[0][3] or not _close(atlas.origin[0], mu0):
         bad.append("origin %r, expected (%r, %r)" % (atlas.origin, mu0, want[0][3]))
     path = atlas.path((muf, nff))
@@ -553,8 +622,10 @@ def replay_path(point, shape, nf0, nff, o_spec="generic", t_spec="generic", free
     for s in path:
         if s.origin != s.target and bool(s.is_downward) != (s.origin > s.target):
             bad.append("Segment.is_downward wrong for %r" % (s,))
+    if [float(x) for x in atlas.walls] != [0.0] + [float(x) for x in walls] + [np.inf]:
+        bad.append("the queries changed atlas.walls to %r" % (list(atlas.walls),))
     if bad:
-        return {"detail": "walls=%r origin=(%r,%r) target=(%r,%r): %s" % (walls, mu0, nf0, muf, nff, "; ".join(bad))}
+        return {"detail": "walls=%r origin=(%r,%r) target=(%r,%r)%s: %s" % (walls, mu0, nf0, muf, nff, " after a default-nf lookup" if pre_query else "", "; ".join(bad))}
     return None
 
 
@@ -569,6 +640,8 @@ def main():
         "walls 0 < w1 <= w2 <= w3 symbolic (non-strict: coincident walls included), plus explicit shapes with coincident symbols, "
         "leading 0 walls and trailing infinite walls (%s shapes), plus Atlas.ffns(nf) for nf=3..6" % ("all monotone" if thorough else "9"),
         "unsorted walls (any three positive reals) for the 16 explicit (nf0, nff) pairs",
+        "state: the same questions after a default-nf lookup on the same Atlas object (sorted and unsorted walls; the lookup raises ValueError for unsorted walls), "
+        "and after every run the walls and origin of the atlas must be what it was built with",
         "origin and target scale symbolic positive finite reals; explicit cases with the target / the origin exactly on a wall",
     ]
     chk.out_of_claim = [
@@ -577,13 +650,20 @@ def main():
         "nf outside {3,4,5,6}, non-positive or infinite origin/target scales, nan",
         "floating-point comparison effects for scales closer than rounding",
     ]
-    chk.stubs = ["numpy.digitize: shim (counts bins <= x by forking on each comparison; documented numpy semantics for increasing bins)",
+    chk.stubs = ["numpy.digitize: shim (ValueError for non-monotonic bins, else counts bins <= x by forking on each comparison; documented numpy semantics for increasing bins)",
+                 "numpy.isfinite / numpy.isinf: False / True exactly for the symbol INF",
                  "numpy.inf: symbol INF with INF > every finite scale", "format(SR): constant string (Atlas.__str__ log line only)"]
     chk.assumptions = ["floats are read as exact reals"]
     for sh in wall_shapes(thorough):
         chk.case("paths." + ",".join(sh), case_paths, shape=sh)
     chk.case("paths.strict", case_paths, shape=("w1", "w2", "w3"), rel="<")
     chk.case("paths.unsorted", case_paths, shape=("w1", "w2", "w3"), free=True)
+    # state: a default-nf lookup happened on the same Atlas object before the path is asked for
+    chk.case("paths.unsorted.after-lookup", case_paths, shape=("w1", "w2", "w3"), free=True, pre_query=True)
+    chk.case("paths.after-lookup", case_paths, shape=("w1", "w2", "w3"), pre_query=True)
+    if thorough:
+        for sh in wall_shapes(True)[1:]:
+            chk.case("paths.after-lookup." + ",".join(sh), case_paths, shape=sh, pre_query=True)
     for nf in NFS:
         shape = ("0",) * (nf - 3) + ("INF",) * (6 - nf)
         chk.case("ffns.nf%d" % nf, case_paths, shape=shape, via_ffns=nf, pairs=[(nf, b) for b in NFS + (None,)])
